@@ -58,6 +58,69 @@ impl Prop for Calls {
     }
 }
 
+// ------------------------------------------------------------ redeclared inherited functions (L0 + L3)
+
+/// A derived type that declares, at an address of its own, a function it also inherits from a base.
+pub struct Redeclared;
+
+/// (derived type, function name) pairs where the derived type's own impl block names a function that an impl
+/// block of one of its direct base types (same module) names too
+fn redeclared_sites(p: &Prog) -> usize {
+    let mut n = 0;
+    for m in &p.mods {
+        for td in m.types() {
+            for bf in td.fields.iter().filter(|f| f.base) {
+                let Ty::Named(bn) = &bf.ty else { continue };
+                let base_names: Vec<&String> = m.impls.iter().filter(|im| &im.ty == bn).flat_map(|im| im.funcs.iter().map(|f| &f.name)).collect();
+                n += m.impls.iter().filter(|im| im.ty == td.name).flat_map(|im| im.funcs.iter()).filter(|f| base_names.contains(&&f.name)).count();
+            }
+        }
+    }
+    n
+}
+
+impl Prop for Redeclared {
+    type Case = Case;
+    crate::prog_shrink!();
+    fn name(&self) -> String {
+        "C05/redeclared".into()
+    }
+    fn rule(&self) -> String {
+        "the C05/calls programs with hierarchies, in each of which one derived type declares in its own impl block, with an address of its own, a function that it inherits from a base (same name; same signature or one more parameter). Oracle: either the build is an error, or every emitted method - the redeclared one included - reaches the address declared for it (the C05/calls driver). Non-trivial: the program has such a redeclaration".into()
+    }
+    fn gen(&self, t: &mut Tape) -> Case {
+        let mut cfg = l3_cfg(t);
+        cfg.vfts = t.chance(1, 3);
+        cfg.bases = true;
+        cfg.enums = false;
+        cfg.ext_vals = false;
+        cfg.singletons = false;
+        cfg.clashes = 1;
+        cfg.clash_kind = Some(1);
+        let (prog, _, _) = gen_prog(t, cfg);
+        Case { prog, seed: t.u64() }
+    }
+    fn judge(&self, c: &Case) -> Outcome {
+        let sites = redeclared_sites(&c.prog);
+        match build_prog(&c.prog, 8) {
+            Res::Panic(p) => return Outcome::fail("panic", p),
+            Res::Err(_) => return Outcome::pass(sites >= 1).class("rejected"),
+            Res::Ok(_) => {}
+        }
+        let r = match run_l3(c, &["own", "forward"]) {
+            Ok(r) => r,
+            Err(o) => return o,
+        };
+        if !r.failures.is_empty() {
+            return Outcome::fail("wrong-call", r.failures.join("\n"));
+        }
+        Outcome::pass(sites >= 1 && r.checked >= 1).class("accepted").class(&format!("redeclarations:{}", sites.min(3)))
+    }
+    fn show(&self, c: &Case) -> Value {
+        show_case(c)
+    }
+}
+
 // ------------------------------------------------------------ rejections (L0)
 
 #[derive(Clone, Serialize, Deserialize)]
@@ -343,7 +406,7 @@ impl Prop for BlockAttributes {
 }
 
 pub fn props() -> Vec<Box<dyn DynProp>> {
-    vec![Box::new(Calls), Box::new(Rejections), Box::new(DeclaredOrder), Box::new(BlockAttributes)]
+    vec![Box::new(Calls), Box::new(Rejections), Box::new(DeclaredOrder), Box::new(BlockAttributes), Box::new(Redeclared)]
 }
 
 pub fn run(ctx: &mut Ctx) {
@@ -352,4 +415,5 @@ pub fn run(ctx: &mut Ctx) {
     ctx.run(&DeclaredOrder, &Params::new(if q { 3000 } else { 30_000 }, 6, 12));
     ctx.run(&BlockAttributes, &Params::new(if q { 3000 } else { 30_000 }, 10, 24));
     ctx.run(&Calls, &Params::new(if q { 1200 } else { 40_000 }, 200, 3000).shrink(60));
+    ctx.run(&Redeclared, &Params::new(if q { 400 } else { 10_000 }, 200, 3000).shrink(60));
 }
